@@ -18,7 +18,7 @@ from __future__ import annotations
 
 import ast
 
-from ..model import Program, call_name, norm
+from ..model import Program, call_name, norm, expand_locals, inline_private_helpers
 from ..poly import Rat, sqrt_of
 from ..report import AnalysisError
 from ..symexec import SymEnv, opaque_pow
@@ -138,10 +138,30 @@ def rule_r1(rep, program: Program):
     return r
 
 
+def _canon_comprehensions(txt: str) -> str:
+    """Identity comprehensions `(x for x in xs)` / `[x for x in xs]` denote `xs` for sum/min/len."""
+    import copy as _copy
+
+    class T(ast.NodeTransformer):
+        def visit_GeneratorExp(self, n):  # noqa: N802
+            self.generic_visit(n)
+            g = n.generators[0]
+            if len(n.generators) == 1 and not g.ifs and isinstance(g.target, ast.Name) and isinstance(n.elt, ast.Name) and n.elt.id == g.target.id:
+                return g.iter
+            return n
+
+        visit_ListComp = visit_GeneratorExp  # noqa: N815
+
+    return norm(T().visit(_copy.deepcopy(ast.parse(txt, mode="eval").body)))
+
+
 def rule_r2(rep, program: Program):
     r = rep.rule("R2", "finalize: n<2 guard before dividing by n-1, regularise, metric = inverse of the matrix built from the estimate, momentum re-sampled for every chain afterwards; step-size finalisation", floor=12)
     for cls, est, mat in (("OnlineVarianceMetricAdapter", "var_est", "PositiveDiagonalMatrix"), ("OnlineCovarianceMetricAdapter", "covar_est", "DensePositiveDefiniteMatrix")):
         f = program.method(cls, "finalize")
+        import dataclasses
+
+        f = dataclasses.replace(f, node=inline_private_helpers(f))  # e.g. an extracted momentum re-sampling loop
         body = f.body_without_docstring()
         top = {i: st for i, st in enumerate(body)}
         idx = {}
@@ -210,14 +230,29 @@ def rule_r2(rep, program: Program):
     ifs = [st for st in f.body_without_docstring() if isinstance(st, ast.If)]
     if not ifs:
         raise AnalysisError("DualAveragingStepSizeAdapter.finalize: branch not found")
-    a = [s for s in ifs[0].body if isinstance(s, ast.Assign)]
-    b = [s for s in ifs[0].orelse if isinstance(s, ast.Assign)]
-    ok1 = a and norm(a[0].targets[0]) == "transition.integrator.step_size" and norm(a[0].value) == "exp(adapt_states['smoothed_log_step_size'])"
-    r.inst({"finalize single": norm(a[0]) if a else None})
+    # value that reaches transition.integrator.step_size on each branch (through named locals)
+    fbody = f.body_without_docstring()
+    after = fbody[fbody.index(ifs[0]) + 1 :]
+
+    def branch_value(arm):
+        env = {}
+        val = None
+        for st in list(arm) + list(after):
+            if isinstance(st, ast.Assign) and len(st.targets) == 1:
+                t = st.targets[0]
+                if isinstance(t, ast.Name):
+                    env[t.id] = expand_locals(st.value, env)
+                elif norm(t) == "transition.integrator.step_size":
+                    val = expand_locals(st.value, env)
+        return val
+
+    va, vb = branch_value(ifs[0].body), branch_value(ifs[0].orelse)
+    ok1 = va is not None and norm(va) == "exp(adapt_states['smoothed_log_step_size'])"
+    r.inst({"finalize single": norm(va) if va is not None else None})
     if not ok1:
-        r.violate(PROP, f"{f.qualname}:single:{norm(a[0].value) if a else None}", "single-chain finalisation does not set step_size = exp(smoothed log step size)", node=ifs[0], file=f.file)
-    ok2 = b and norm(b[0].targets[0]) == "transition.integrator.step_size" and isinstance(b[0].value, ast.Call) and norm(b[0].value.func) == "self.log_step_size_reducer" and "smoothed_log_step_size" in norm(b[0].value.args[0]) and "for adapt_state in adapt_states" in norm(b[0].value.args[0])
-    r.inst({"finalize multi": norm(b[0])[:80] if b else None})
+        r.violate(PROP, f"{f.qualname}:single:{norm(va) if va is not None else None}", "single-chain finalisation does not set step_size = exp(smoothed log step size)", node=ifs[0], file=f.file)
+    ok2 = vb is not None and isinstance(vb, ast.Call) and norm(vb.func) == "self.log_step_size_reducer" and vb.args and "smoothed_log_step_size" in norm(vb.args[0]) and "for adapt_state in adapt_states" in norm(vb.args[0])
+    r.inst({"finalize multi": norm(vb)[:80] if vb is not None else None})
     if not ok2:
         r.violate(PROP, f"{f.qualname}:multi", "multi-chain finalisation does not combine every chain's smoothed log step size with the chosen reducer", node=ifs[0], file=f.file)
     # reducers return step sizes (exp of log) - arithmetic / geometric / min
@@ -233,7 +268,7 @@ def rule_r2(rep, program: Program):
             raise AnalysisError(f"adapters.{name} not found")
         ret = [n for n in ast.walk(g.node) if isinstance(n, ast.Return)][0]
         r.inst({"reducer": name, "returns": norm(ret.value)})
-        if norm(ret.value) != want:
+        if _canon_comprehensions(norm(ret.value)) != _canon_comprehensions(want):
             r.violate(PROP, f"{name}:{norm(ret.value)[:50]}", f"reducer returns `{norm(ret.value)}`; documented: `{want}`", node=ret, file=g.file)
     return r
 
